@@ -223,6 +223,55 @@ Definition proof_serve (soa_expires : Z) (pieces : list Z) (now : Z) : option (Z
     let rem := expires - now in
     if rem <=? 0 then None else Some (rem / second, expires).
 
+(* The RFC 8198 proof index of one signer zone across several admissions
+   (denialProofCache.extract / recordWithKind / lookupWithMeta).  Every proof
+   RRset entry is admitted with the expiry of ITS OWN records folded with the
+   SOA and SOA-RRSIG of the proof it arrived in and that proof's lease; a later
+   admission replaces the SOA entry and the sets it carries, nothing else.
+   [pp_*] after the expiry are ghost fields: what the piece was admitted with. *)
+Record pset := mk_pset { ps_owner : N; ps_records : list prr }.
+Record ppiece := mk_ppiece { pp_owner : N; pp_expires : Z;
+                             pp_now : Z; pp_cut : option Z; pp_common : list prr; pp_set : list prr }.
+Record pindex := mk_pindex { pi_soa : option Z; pi_pieces : list ppiece }.
+
+Fixpoint admit_sets (max_ttl : Z) (cut : option Z) (common : list prr) (now : Z) (sets : list pset) : option (list ppiece) :=
+  match sets with
+  | [] => Some []
+  | s :: r =>
+      match proof_expiry max_ttl cut (common ++ ps_records s) now now, admit_sets max_ttl cut common now r with
+      | Some ex, Some l => Some (mk_ppiece (ps_owner s) ex now cut common (ps_records s) :: l)
+      | _, _ => None
+      end
+  end.
+
+Definition pi_replace (old new : list ppiece) : list ppiece :=
+  new ++ filter (fun p => negb (existsb (fun q => (pp_owner q =? pp_owner p)%N) new)) old.
+
+(* recordWithKind: the whole bundle or nothing *)
+Definition pi_admit (max_ttl : Z) (st : pindex) (now : Z) (cut : option Z) (common : list prr) (sets : list pset) : pindex * bool :=
+  match proof_expiry max_ttl cut common now now, admit_sets max_ttl cut common now sets with
+  | Some soa, Some l => (mk_pindex (Some soa) (pi_replace (pi_pieces st) l), true)
+  | _, _ => (st, false)
+  end.
+
+Definition pi_find (l : list ppiece) (o : N) : option ppiece := find (fun p => (pp_owner p =? o)%N) l.
+
+(* lookupWithMeta for a name whose denial needs the RRsets owned by [needed]:
+   a zone without a live SOA is retired, expired sets are pruned, the answer
+   needs every piece live *)
+Definition pi_lookup (st : pindex) (now : Z) (needed : list N) : pindex * option (Z * Z) :=
+  match pi_soa st with
+  | None => (mk_pindex None [], None)
+  | Some soa =>
+      if negb (now <? soa) then (mk_pindex None [], None)
+      else
+        let live := filter (fun p => now <? pp_expires p) (pi_pieces st) in
+        let st' := mk_pindex (Some soa) live in
+        if forallb (fun o => match pi_find live o with Some _ => true | None => false end) needed
+        then (st', proof_serve soa (flat_map (fun o => match pi_find live o with Some p => [pp_expires p] | None => [] end) needed) now)
+        else (st', None)
+  end.
+
 (* ------------------------------------------------------------------ *)
 (** * 5. The store: set / remove / pointer-CAS                          *)
 
